@@ -123,6 +123,69 @@ pub fn strip_time_fields(line: &str) -> String {
     out.join(" ")
 }
 
+/// Castling rights as the TEXT of the commanded position gives them, followed through the moves
+/// played since by square names alone (a move from or to e1/a1/h1/e8/a8/h8 ends the rights tied
+/// to that square).  Independent of the engine's FEN reader and of its rights bookkeeping.
+pub fn castling_rights_by_text(fen: Option<&str>, moves: &[String]) -> String {
+    let mut rights: String = match fen {
+        None => "KQkq".to_string(),
+        Some(f) => f.split_whitespace().nth(2).unwrap_or("-").chars().filter(|c| "KQkq".contains(*c)).collect(),
+    };
+    for m in moves {
+        if m.len() < 4 {
+            continue;
+        }
+        for sq in [&m[0..2], &m[2..4]] {
+            let gone: &str = match sq {
+                "e1" => "KQ",
+                "h1" => "K",
+                "a1" => "Q",
+                "e8" => "kq",
+                "h8" => "k",
+                "a8" => "q",
+                _ => "",
+            };
+            rights.retain(|c| !gone.contains(c));
+        }
+    }
+    rights
+}
+
+/// Legal moves of `game` (by the engine's own generator) without the castling moves that the text of
+/// the commanded position rules out.
+pub fn legal_move_strs_checked(game: &Game, fen: Option<&str>, moves: &[String]) -> Vec<String> {
+    let rights = castling_rights_by_text(fen, moves);
+    let gf = game.to_fen();
+    let placement = gf.split_whitespace().next().unwrap_or("").to_string();
+    let king_on = |sq: &str, k: char| -> bool {
+        // piece letter on `sq` in the placement field
+        let (file, rank) = (sq.as_bytes()[0] - b'a', sq.as_bytes()[1] - b'0');
+        let Some(row) = placement.split('/').nth(8 - rank as usize) else { return false };
+        let mut f = 0u8;
+        for c in row.chars() {
+            if let Some(d) = c.to_digit(10) {
+                f += d as u8;
+            } else {
+                if f == file {
+                    return c == k;
+                }
+                f += 1;
+            }
+        }
+        false
+    };
+    legal_move_strs(game)
+        .into_iter()
+        .filter(|m| match m.as_str() {
+            "e1g1" if king_on("e1", 'K') => rights.contains('K'),
+            "e1c1" if king_on("e1", 'K') => rights.contains('Q'),
+            "e8g8" if king_on("e8", 'k') => rights.contains('k'),
+            "e8c8" if king_on("e8", 'k') => rights.contains('q'),
+            _ => true,
+        })
+        .collect()
+}
+
 /// State of the C08 monitor for one search.
 #[derive(Clone, Debug)]
 pub struct LineMonitor {
@@ -132,11 +195,19 @@ pub struct LineMonitor {
     pub infos: u32,
     pub mates_checked: u32,
     pub pv_moves_checked: u64,
+    pub root_legal: Option<Vec<String>>,
 }
 
 impl LineMonitor {
     pub fn new(root: Game, depth_limit: Option<u8>) -> Self {
-        LineMonitor { root, depth_limit, last_depth: 0, infos: 0, mates_checked: 0, pv_moves_checked: 0 }
+        LineMonitor { root, depth_limit, last_depth: 0, infos: 0, mates_checked: 0, pv_moves_checked: 0, root_legal: None }
+    }
+
+    /// The legal moves of the root as judged with the text of the commanded position (see
+    /// `legal_move_strs_checked`): the first move of every line must be one of them.
+    pub fn with_root_legal(mut self, legal: Vec<String>) -> Self {
+        self.root_legal = Some(legal);
+        self
     }
 
     /// Check one reported line; returns (class, message) per violated clause of C08.
@@ -161,6 +232,15 @@ impl LineMonitor {
             return v;
         }
         let mut g = self.root.clone();
+        if let (Some(legal), Some(first)) = (&self.root_legal, info.pv.first()) {
+            if !legal.contains(first) {
+                v.push((
+                    "pv-illegal".to_string(),
+                    format!("pv move #1 `{first}` of `{}` is not legal (depth {}, position {fen})", info.pv.join(" "), info.depth),
+                ));
+                return v;
+            }
+        }
         for (i, m) in info.pv.iter().enumerate() {
             match find_move(&g, m) {
                 Some(mv) => {
